@@ -1,7 +1,7 @@
 (* Properties_C11.v — C11 "regular-expression rewrites accept exactly the same language".
    Only statements closed by [exact]; see Proofs_Regex*.v.  Naming: _partial = holds under the stated guard,
    _refuted = the unguarded statement is false, with a concrete witness. *)
-From GC Require Import Base Model_Regex Model_RegexSimplify Proofs_Regex Proofs_RegexRules Proofs_RegexSimplify.
+From GC Require Import Base Model_Regex Model_RegexSimplify Proofs_Regex Proofs_RegexRules Proofs_RegexSimplify Proofs_RegexWalk.
 
 (* observational equivalence gives the same FindStringSubmatchIndex vector on every subject *)
 Theorem C11_equiv_same_matches : forall a b n, req a b -> forall s, go_vec n (find a s) = go_vec n (find b s).
@@ -92,10 +92,30 @@ Theorem C11_norm_sound : forall e, req (norm e) e.
 Proof. exact (norm_sound). Qed.
 Print Assumptions C11_norm_sound.
 
-(* one pass of the simplifier, tree level; hypothesis = the decidable certificate, evaluated by the kernel on every case of the tie *)
-Theorem C11_simplify_sound_partial : forall e, certified e = true -> exists a b n names, den_top e = Some (a, n, names) /\ den_top (simp_ast e) = Some (b, n, names) /\ req a b /\ forall subject, find_go e subject = find_go (simp_ast e) subject.
-Proof. exact (simplify_sound_certified). Qed.
+(* One pass of the CURRENT simplifier (after the fix commits), tree level, by induction over the walker:
+   for every tree of the capture-free, flag-free fragment (in_fragment: the state-free elaboration succeeds)
+   that avoids the guards (avoids_defects: decidable, syntactic, mirrors the walker), the emitted tree has the
+   same groups (none) and is observationally equivalent: same FindStringSubmatchIndex on every subject. *)
+Theorem C11_simplify_sound_partial : forall e, in_fragment e = true -> avoids_defects e = true ->
+  exists x y, den_top e = Some (x, 0, []) /\ den_top (simp_ast e) = Some (y, 0, []) /\ req y x /\
+              forall subject, find_go (simp_ast e) subject = find_go e subject.
+Proof. exact simplify_sound_fragment. Qed.
 Print Assumptions C11_simplify_sound_partial.
+
+(* the state-free elaboration used by in_fragment agrees with the elaboration tied to Go's regexp *)
+Theorem C11_fragment_elaboration_agrees : forall e x st, d_fl st = flags0 -> sden e = Some x -> den e st = Some (x, st).
+Proof. exact sden_den. Qed.
+Print Assumptions C11_fragment_elaboration_agrees.
+
+Example C11_fragment_satisfiable :
+  in_fragment doc_example2 = true /\ avoids_defects doc_example2 = true /\ simp_text doc_example2 = "(?:[abc]) {3}[a-z]+".
+Proof. exact doc_example_fragment. Qed.
+Print Assumptions C11_fragment_satisfiable.
+
+(* one pass of the simplifier, tree level; hypothesis = the decidable certificate, evaluated by the kernel on every case of the tie *)
+Theorem C11_simplify_sound_certified_partial : forall e, certified e = true -> exists a b n names, den_top e = Some (a, n, names) /\ den_top (simp_ast e) = Some (b, n, names) /\ req a b /\ forall subject, find_go e subject = find_go (simp_ast e) subject.
+Proof. exact (simplify_sound_certified). Qed.
+Print Assumptions C11_simplify_sound_certified_partial.
 
 (* used by the tie to chain: original tree ~ simp_ast ~ tree of the emitted text ~ ... ~ tree of the final rewrite *)
 Theorem C11_same_meaning_sound : forall e1 e2, same_meaning e1 e2 = true -> exists a b n names, den_top e1 = Some (a, n, names) /\ den_top e2 = Some (b, n, names) /\ req a b /\ forall subject, find_go e1 subject = find_go e2 subject.
@@ -118,39 +138,43 @@ Theorem C11_alt_prefix_order_refuted : simp_text t_prefix = "foo?" /\ differ t_p
 Proof. exact alt_prefix_order_refuted. Qed.
 Print Assumptions C11_alt_prefix_order_refuted.
 
-Theorem C11_capture_under_zero_repeat_refuted : simp_text t_zero_cap = "b" /\ option_map (fun x => snd (fst x)) (den_top t_zero_cap) = Some 1 /\ option_map (fun x => snd (fst x)) (den_top (simp_ast t_zero_cap)) = Some 0.
-Proof. exact capture_under_zero_repeat_refuted. Qed.
-Print Assumptions C11_capture_under_zero_repeat_refuted.
+Theorem C11_capture_under_zero_repeat_prefix_refuted : simp_text_prefix t_zero_cap = "b" /\ option_map (fun x => snd (fst x)) (den_top t_zero_cap) = Some 1 /\ option_map (fun x => snd (fst x)) (den_top (simp_ast_prefix t_zero_cap)) = Some 0.
+Proof. exact capture_under_zero_repeat_prefix_refuted. Qed.
+Print Assumptions C11_capture_under_zero_repeat_prefix_refuted.
 
-Theorem C11_capture_in_folded_group_refuted : simp_text t_fold_cap = "(?:(a)){2}" /\ option_map (fun x => snd (fst x)) (den_top t_fold_cap) = Some 2 /\ option_map (fun x => snd (fst x)) (den_top (simp_ast t_fold_cap)) = Some 1.
-Proof. exact capture_in_folded_group_refuted. Qed.
-Print Assumptions C11_capture_in_folded_group_refuted.
+Theorem C11_capture_in_folded_group_prefix_refuted : simp_text_prefix t_fold_cap = "(?:(a)){2}" /\ option_map (fun x => snd (fst x)) (den_top t_fold_cap) = Some 2 /\ option_map (fun x => snd (fst x)) (den_top (simp_ast_prefix t_fold_cap)) = Some 1.
+Proof. exact capture_in_folded_group_prefix_refuted. Qed.
+Print Assumptions C11_capture_in_folded_group_prefix_refuted.
 
-Theorem C11_capture_in_merged_group_refuted : simp_text t_merge_cap = "(?:(a))+" /\ option_map (fun x => snd (fst x)) (den_top t_merge_cap) = Some 2 /\ option_map (fun x => snd (fst x)) (den_top (simp_ast t_merge_cap)) = Some 1.
-Proof. exact capture_in_merged_group_refuted. Qed.
-Print Assumptions C11_capture_in_merged_group_refuted.
+Theorem C11_capture_in_merged_group_prefix_refuted : simp_text_prefix t_merge_cap = "(?:(a))+" /\ option_map (fun x => snd (fst x)) (den_top t_merge_cap) = Some 2 /\ option_map (fun x => snd (fst x)) (den_top (simp_ast_prefix t_merge_cap)) = Some 1.
+Proof. exact capture_in_merged_group_prefix_refuted. Qed.
+Print Assumptions C11_capture_in_merged_group_prefix_refuted.
 
 Theorem C11_merge_of_nullable_group_refuted : simp_text t_merge_nullable = "(?:s*?b*)+" /\ differ t_merge_nullable (simp_ast t_merge_nullable) "bs".
 Proof. exact merge_of_nullable_group_refuted. Qed.
 Print Assumptions C11_merge_of_nullable_group_refuted.
 
-Theorem C11_flag_group_loses_question_mark_refuted : simp_text t_flag_group = "(i:a)b" /\ differ t_flag_group (simp_ast t_flag_group) "ab".
-Proof. exact flag_group_loses_question_mark_refuted. Qed.
-Print Assumptions C11_flag_group_loses_question_mark_refuted.
+Theorem C11_flag_group_loses_question_mark_prefix_refuted : simp_text_prefix t_flag_group = "(i:a)b" /\ differ t_flag_group (simp_ast_prefix t_flag_group) "ab".
+Proof. exact flag_group_loses_question_mark_prefix_refuted. Qed.
+Print Assumptions C11_flag_group_loses_question_mark_prefix_refuted.
 
-Theorem C11_nongreedy_over_dropped_repeat_refuted : simp_text t_ng = "a?b" /\ print t_ng_after = "a?b" /\ differ t_ng t_ng_after "b".
-Proof. exact nongreedy_over_dropped_repeat_refuted. Qed.
-Print Assumptions C11_nongreedy_over_dropped_repeat_refuted.
+Theorem C11_nongreedy_over_dropped_repeat_prefix_refuted : simp_text_prefix t_ng = "a?b" /\ print t_ng_after = "a?b" /\ differ t_ng t_ng_after "b".
+Proof. exact nongreedy_over_dropped_repeat_prefix_refuted. Qed.
+Print Assumptions C11_nongreedy_over_dropped_repeat_prefix_refuted.
 
-Theorem C11_alt_to_class_dash_refuted : simp_text t_dash = "[a-c]" /\ print t_dash_after = "[a-c]" /\ differ t_dash t_dash_after "-".
-Proof. exact alt_to_class_dash_refuted. Qed.
-Print Assumptions C11_alt_to_class_dash_refuted.
+Theorem C11_alt_to_class_dash_prefix_refuted : simp_text_prefix t_dash = "[a-c]" /\ print t_dash_after = "[a-c]" /\ differ t_dash t_dash_after "-".
+Proof. exact alt_to_class_dash_prefix_refuted. Qed.
+Print Assumptions C11_alt_to_class_dash_prefix_refuted.
 
-Theorem C11_alt_to_class_bracket_refuted : simp_text t_brk = "[a]]" /\ print t_brk_after = "[a]]" /\ differ t_brk t_brk_after "a".
-Proof. exact alt_to_class_bracket_refuted. Qed.
-Print Assumptions C11_alt_to_class_bracket_refuted.
+Theorem C11_alt_to_class_bracket_prefix_refuted : simp_text_prefix t_brk = "[a]]" /\ print t_brk_after = "[a]]" /\ differ t_brk t_brk_after "a".
+Proof. exact alt_to_class_bracket_prefix_refuted. Qed.
+Print Assumptions C11_alt_to_class_bracket_prefix_refuted.
 
-Theorem C11_unwrap_creates_repeat_refuted : simp_text t_unwrap = "a{1}" /\ print t_unwrap_after = "a{1}" /\ differ t_unwrap t_unwrap_after "a".
+Theorem C11_unwrap_class_creates_repeat_prefix_refuted : simp_text_prefix t_unwrap = "a{1}" /\ print t_unwrap_after = "a{1}" /\ differ t_unwrap t_unwrap_after "a".
+Proof. exact unwrap_class_creates_repeat_prefix_refuted. Qed.
+Print Assumptions C11_unwrap_class_creates_repeat_prefix_refuted.
+
+Theorem C11_unwrap_creates_repeat_refuted : simp_text t_unwrap_g = "a{2}" /\ print t_unwrap_g_after = "a{2}" /\ differ t_unwrap_g t_unwrap_g_after "aa".
 Proof. exact unwrap_creates_repeat_refuted. Qed.
 Print Assumptions C11_unwrap_creates_repeat_refuted.
 
@@ -162,7 +186,11 @@ Theorem C11_escape_removal_creates_posix_class_refuted : simp_text t_esc_posix =
 Proof. exact escape_removal_creates_posix_class_refuted. Qed.
 Print Assumptions C11_escape_removal_creates_posix_class_refuted.
 
-Theorem C11_range_enumeration_creates_range_refuted : simp_text t_rng = "[+,-x]" /\ print t_rng_after = "[+,-x]" /\ differ t_rng t_rng_after "[".
+Theorem C11_range_enumeration_dash_bound_prefix_refuted : simp_text_prefix t_rng = "[+,-x]" /\ print t_rng_after = "[+,-x]" /\ differ t_rng t_rng_after "[".
+Proof. exact range_enumeration_dash_bound_prefix_refuted. Qed.
+Print Assumptions C11_range_enumeration_dash_bound_prefix_refuted.
+
+Theorem C11_range_enumeration_creates_range_refuted : simp_text t_rng2 = "[ab-x]" /\ print t_rng2_after = "[ab-x]" /\ differ t_rng2 t_rng2_after "c".
 Proof. exact range_enumeration_creates_range_refuted. Qed.
 Print Assumptions C11_range_enumeration_creates_range_refuted.
 
@@ -170,9 +198,9 @@ Theorem C11_unwrap_joins_octal_escape_refuted : simp_text t_oct = "\01" /\ print
 Proof. exact unwrap_joins_octal_escape_refuted. Qed.
 Print Assumptions C11_unwrap_joins_octal_escape_refuted.
 
-Theorem C11_empty_alt_branch_factored_refuted : simp_text t_empty_branch = "(|?)".
-Proof. exact empty_alt_branch_factored_refuted. Qed.
-Print Assumptions C11_empty_alt_branch_factored_refuted.
+Theorem C11_empty_alt_branch_factored_prefix_refuted : simp_text_prefix t_empty_branch = "(|?)".
+Proof. exact empty_alt_branch_factored_prefix_refuted. Qed.
+Print Assumptions C11_empty_alt_branch_factored_prefix_refuted.
 
 (* the hypothesis of C11_simplify_sound_partial is satisfiable: the example of the checker's documentation *)
 Example C11_certified_satisfiable : certified doc_example = true /\ simp_text doc_example = "(?:[abc]) {3}[a-z]+".
